@@ -549,7 +549,7 @@ class kMinPathErrorCycles(walkmodel.AbstractWalkModelDiGraph):
         for u, v, data in self.G.edges(data=True):
             if self.flow_attr in data and (u,v) not in self.edges_to_ignore:
                 if (
-                    abs(data[self.flow_attr] - weight_from_walks[(u, v)])
+                    abs(data[self.flow_attr] - weight_from_walks[(u, v)]) * self.edge_error_scaling.get((u, v), 1)
                     > tolerance * num_edge_walks_on_edges[(u, v)] + slack_from_walks[(u, v)]
                 ):
                     utils.logger.debug(f"{__name__}: Solution: {self._solution}")
